@@ -1181,7 +1181,9 @@ class BayesianNetwork(DAG):
         if adj_model.cpds:
             for node in nodes:
                 cpd = adj_model.get_cpds(node=node)
-                cpd.marginalize(cpd.variables[1:], inplace=True)
+                # a node may not have a CPD yet: only the structure changes for it
+                if cpd is not None:
+                    cpd.marginalize(cpd.variables[1:], inplace=True)
         return adj_model
 
     def simulate(
